@@ -326,6 +326,9 @@ func (g *gen) afterCall(instr ssa.Instruction, sig *types.Signature, v ssa.Value
 	var errT string
 	if n == 1 {
 		errT = g.vals[v]
+		if os.Getenv("YQV_DEBUG_ERR") != "" {
+			fmt.Fprintf(os.Stderr, "errprop %s: %s plain=%v\n", g.vc.Func, g.exprText(v), plainErrorUse(v, 0))
+		}
 		if !plainErrorUse(v, 0) {
 			return
 		}
@@ -1444,6 +1447,10 @@ func plainErrorUse(v ssa.Value, depth int) bool {
 			if !onlyLogged(u) {
 				return false
 			}
+		case *ssa.ChangeInterface:
+			if !onlyLogged(u) {
+				return false
+			}
 		default:
 			return false
 		}
@@ -1452,7 +1459,7 @@ func plainErrorUse(v ssa.Value, depth int) bool {
 }
 
 // onlyLogged: the interface value is only stored into the variadic argument array of logger calls.
-func onlyLogged(mi *ssa.MakeInterface) bool {
+func onlyLogged(mi ssa.Value) bool {
 	refs := mi.Referrers()
 	if refs == nil {
 		return false
@@ -1462,7 +1469,7 @@ func onlyLogged(mi *ssa.MakeInterface) bool {
 		case *ssa.DebugRef:
 		case *ssa.Store:
 			ia, ok := u.Addr.(*ssa.IndexAddr)
-			if !ok || u.Val != ssa.Value(mi) {
+			if !ok || u.Val != mi {
 				return false
 			}
 			al, ok := ia.X.(*ssa.Alloc)
